@@ -65,7 +65,13 @@ def sweep_args(op, b, lexer_name):
     else:
         raise KeyError(kind)
     parts, part = op.get("parts", 1), op.get("part", 0)
-    return [a for j, a in enumerate(args) if j % parts == part]
+    args = [a for j, a in enumerate(args) if j % parts == part]
+    cap = op.get("cap")
+    if cap and len(args) > cap:
+        # quick tier: a PRNG sample of the stratum (first and last elements always kept)
+        keep = sorted(rng.sample(range(1, len(args) - 1), cap - 2))
+        args = [args[0]] + [args[j] for j in keep] + [args[-1]]
+    return args
 
 
 def do_analysis_sweep(ex, idx, op):
@@ -120,9 +126,9 @@ def sweep_plan(tier):
             continue
         if tier == "quick":
             # token-boundary stratum, one case per content for both byte kinds
-            cases.append({"content": cid, "lexer": lexer, "kind": "torn_prefix", "mode": "boundaries"})
+            cases.append({"content": cid, "lexer": lexer, "kind": "torn_prefix", "mode": "boundaries", "cap": 160})
             if cid.split(".", 1)[1] in ("multi2", "nested", "strings", "mlhdr", "half", "unbal", "arrowparam", "arrowmix", "arrowcall", "async", "cont", "record", "ns", "prop", "macro"):
-                cases.append({"content": cid, "lexer": lexer, "kind": "lost_head", "mode": "boundaries"})
+                cases.append({"content": cid, "lexer": lexer, "kind": "lost_head", "mode": "boundaries", "cap": 160})
                 cases.append({"content": cid, "lexer": lexer, "kind": "lost_line"})
                 cases.append({"content": cid, "lexer": lexer, "kind": "swap_lines"})
                 cases.append({"content": cid, "lexer": lexer, "kind": "misc"})
@@ -133,6 +139,15 @@ def sweep_plan(tier):
                     cases.append({"content": cid, "lexer": lexer, "kind": kind, "part": part, "parts": parts})
             for kind in LINE_KINDS + ("flip_byte", "zero_tail", "misc"):
                 cases.append({"content": cid, "lexer": lexer, "kind": kind})
+    if tier != "quick":
+        # the same texts under two other languages' lexers (a file stored under the wrong
+        # extension): malformed for that language in ways no truncation of its own texts gives
+        for lexer, cid in c06.pairs():
+            if lexer != LEXER_NAME[CONTENTS[cid]["lang"]]:
+                for kind in ("torn_prefix", "lost_line", "misc"):
+                    cases.append({"content": cid, "lexer": lexer, "kind": kind, "mode": "boundaries", "cap": 400})
+    # interleave languages, so that a time-boxed prefix of the plan covers all seven
+    cases.sort(key=lambda c: (c["content"].split(".", 1)[1], c["kind"], c["content"].split(".", 1)[0], c["lexer"], c.get("part", 0)))
     return cases
 
 
@@ -183,7 +198,7 @@ def gen_world(i, R, rng, sw):
             a2 = rng.randrange(0, max(1, n))
             ops.append({"op": "corrupt", "path": target, "kind": k2,
                         "arg": [a2, rng.choice(F.FLIP_VALUES)] if k2 == "flip_byte" else a2})
-    ops.append({"op": "scan", "nonce": G.nonce(rng), "spelling": rng.choice(("dot", "abs", "rel_parent", "dotdot", "rel_outside")),
+    ops.append({"op": "scan", "nonce": G.nonce(rng), "spelling": rng.choice(("dot", "abs", "rel_parent", "dotdot", "rel_outside", "symlink")),
                 "target": target})
     parent = target.rsplit("/", 1)[0] if "/" in target else "."
     top = target.split("/")[0] if "/" in target else "."
